@@ -296,3 +296,12 @@ def ap_load_relevant_coins():
                  C("wellformed", "res is Ok ==> forall|q: int| 0 <= q < txx@.len() ==> spec_well_formed(#[trigger] txx@[q]) && outputs_fit(txx@[q])", "C02", "C09"),
                  C("nodup", "res is Ok ==> inputs_distinct(txx@)", "C02"),
                  C("err", "res is Err ==> res->Err_0 is MalformedTx || res->Err_0 is NonexistentCoin", "C02", char=True)])
+
+def mm_extract_pool_keys():
+    return dict(ensures=[C("keys", "forall|k: PoolKey| #[trigger] res@.contains(k) <==> mentions(old(transactions)@, k)", "C15", "C16"),
+                         C("once", "res@.no_duplicates()", "C15", "C16", note="each pool named by the block's requests is settled exactly once"),
+                         C("sorted", "pk_sorted(res@)", "C03"),
+                         C("frame", "final(transactions)@ == old(transactions)@", "C15")])
+
+def mm_transactions_for_pool():
+    return dict(ensures=[C("filter", "res@ == transactions@.filter(for_pool(*pool_key))", "C15")])
